@@ -80,15 +80,15 @@ type LSimple struct {
 	Label string `json:"label"`
 	Fn    string `json:"fn"`
 	IsStr bool   `json:"is_str"`
-	Str   string `json:"str"` // hex
-	Num   string `json:"num"` // %x
+	Str   string `json:"str"`           // hex
+	Num   string `json:"num"`           // %x
 	Ill   bool   `json:"ill,omitempty"` // a string operator with a numeric literal: makeFilter must refuse it
 }
 
 type Out struct {
 	Err     string  `json:"err"` // "" | "err" | "panic" | "plan" | "planpanic" (Process() itself panicked)
 	ErrMsg  string  `json:"err_msg,omitempty"`
-	Cancel  bool    `json:"cancel"` // ctx.CancelCtx was called during the run
+	Cancel  bool    `json:"cancel"`  // ctx.CancelCtx was called during the run
 	Entries []Entry `json:"entries"` // non-EOF entries, stable-sorted by fingerprint
 }
 
@@ -166,6 +166,7 @@ type Case struct {
 	Absent     bool     `json:"absent"` // the range aggregation is absent_over_time
 	CrashStage int      `json:"crash_stage"`
 	CrashTrace string   `json:"crash_trace,omitempty"` // planner types named in the stack trace of the dying process
+	SQL        string   `json:"sql,omitempty"`         // Mode "sql": the statement the ClickHouse planner prints for Query
 	Pipelined  string   `json:"pipelined,omitempty"`
 	PipeOut    *Out     `json:"pipe_out,omitempty"`
 }
@@ -1697,6 +1698,8 @@ func main() {
 		if c.Mode == "fp" {
 			runFP(c)
 		} else if c.Mode == "json" {
+		} else if c.Mode == "sql" {
+			runSQL(c)
 		} else {
 			runCase(c)
 		}
